@@ -333,6 +333,10 @@ func TestVerif_C24_Pool(t *testing.T) {
 		plan := genPoolPlan(rt)
 		saveLastCase("c24", []byte(fmt.Sprintf("%+v", plan)))
 		res, obs := runPoolPlan(t, plan)
+		if res.Frozen {
+			c.Inconclusive("virtual-clock-freeze")
+			return
+		}
 		nt := obs.Waited || obs.DoneCtxStore
 		var cls []string
 		if obs.Waited {
@@ -369,6 +373,10 @@ func TestVerif_C24_PoolLostWakeup(t *testing.T) {
 		}
 		saveLastCase("c24h", []byte(fmt.Sprintf("%+v", plan)))
 		res, obs := runPoolPlan(t, plan)
+		if res.Frozen {
+			c.Inconclusive("virtual-clock-freeze")
+			return
+		}
 		c.Eval(true, fmt.Sprintf("%+v", plan))
 		c.Sample(true, func() any { return plan })
 		if obs.Late > 0 && c.Known("C24.lost-wakeup") {
